@@ -65,7 +65,25 @@ def corrupt(groups):
     return False
 
 
-def run(ctx):
+def generate(ctx):
+    """TLC runs: returns (behaviours, regex table). With VERIF_C16_CACHE=<file> the result of the TLC
+    stage is stored in / taken from that file (development aid for mutant runs; never set by ./check)."""
+    import vlib
+    cache = os.environ.get("VERIF_C16_CACHE")
+    if cache and os.path.exists(cache):
+        with open(cache) as f:
+            c = json.load(f)
+        ctx.states, ctx.transitions = c["states"], c["transitions"]
+        ctx.log("TLC stage taken from cache", cache)
+        return c["behs"], c["retab"]
+    behs, retab = generate_tlc(ctx)
+    if cache:
+        with open(cache, "w") as f:
+            json.dump({"states": ctx.states, "transitions": ctx.transitions, "behs": behs, "retab": retab}, f)
+    return behs, retab
+
+
+def generate_tlc(ctx):
     import vlib
     q = ctx.quick
     # (M)+(R) every store of <=2 series reached by AppendSample/Cut histories; one behaviour per coverage class
@@ -92,6 +110,12 @@ def run(ctx):
     ctx.log("SIM: %d walks (%.0fs)" % (len(sim.emitted), sim.wall))
     if retab is None:
         raise vlib.Infra("regex table was not emitted")
+    return behs, retab
+
+
+def run(ctx):
+    import vlib
+    behs, retab = generate(ctx)
     groups = group_behaviours(behs)
     if not groups:
         raise vlib.Infra("no behaviours emitted")
